@@ -195,6 +195,14 @@ def drive_storage(case, sh, state):
         if case.get("parent_polls", True) and k < case.get("max_reads", 300):
             _read_once(st, sh, "P", rng.choice(universe))
             k += 1
+            if case.get("parent_iterates") and k % 7 == 3:
+                # a complete iteration WHILE the writers run
+                sh.log("iter_call", r="P")
+                try:
+                    texts = list(st)
+                    sh.log("iter_ret", r="P", out="ok", texts=texts)
+                except Exception as e:
+                    sh.log("iter_ret", r="P", out=f"exc:{type(e).__name__}: {e}")
         time.sleep(0.0005)
     for kind, p in procs:
         if kind == "w":
@@ -326,6 +334,37 @@ def storage_findings(case, result):
                                 f"store of it had returned at seq {done[0]['ret']} < read call seq {call_seq}"))
             else:
                 out.append(("read-raised", f"reader {e['r']} reading id {g}: {e['out']}"))
+    # iterations concurrent with the writers: in id order; every text whose store had returned before the iteration was
+    # called is there, nothing is there whose store was called after the iteration returned, and nothing foreign
+    it_call = None
+    for e in ev:
+        if e["ev"] == "iter_call":
+            it_call = e["seq"]
+        elif e["ev"] == "iter_ret" and it_call is not None:
+            if e["out"] != "ok":
+                out.append(("iteration-raised", f"list(storage) while writers run: {e['out']}"))
+            else:
+                texts = e["texts"]
+                by_text = {s["t"]: s for s in stores.values() if s["out"] in ("ok", None)}
+                ids = []
+                bad = None
+                for t in texts:
+                    s = by_text.get(t)
+                    if s is None or s["call"] > e["seq"]:
+                        bad = f"yields {t!r} which no store that had started supplied"
+                        break
+                    ids.append(s["g"])
+                if bad is None and ids != sorted(set(ids)):
+                    bad = f"ids {ids} are not in ascending order / not distinct"
+                if bad is None:
+                    must = sorted(s["g"] for s in stores.values() if s["out"] == "ok" and s["ret"] is not None and s["ret"] < it_call)
+                    missing = [g for g in must if g not in ids]
+                    if missing:
+                        bad = (f"misses ids {missing[:5]} whose store had returned before the iteration was called (it yielded ids {ids[:12]})")
+                if bad:
+                    out.append(("concurrent-iteration", f"list(storage) while writers run (called at seq {it_call}, returned at {e['seq']}) {bad}"))
+            nreads += 1
+            it_call = None
     # final state
     fin = None
     for n in result.get("notes", []):
